@@ -237,6 +237,11 @@ DIRECTED = [
     ("Select(Select(EventDataset(), lambda e: (e.x, e.y)), lambda t: (t[1], t[0]))", True),
     ("Select(Select(EventDataset(), lambda e: {'a': e.jets, 'b': e.met}), lambda t: Select(t.a, lambda j: (j.pt, t.b)))", True),
     ("Select(Select(Select(EventDataset(), lambda e: (e.jets, e.trks)), lambda t: {'n': Count(t[0]), 't': t[1]}), lambda d: Select(d.t, lambda k: k.pt * d['n']))", False),
+    # a packaged field that is CALLED in a later stage (attribute name, key, through Where, nested)
+    ("Select(Select(EventDataset(), lambda e: {'pt': e.m, 'x': e.x}), lambda d: d.pt() + d.x)", False),
+    ("Select(Select(EventDataset(), lambda e: {'pt': e.m, 'x': e.x}), lambda d: d['pt']() + d.x)", False),
+    ("Select(Where(Select(EventDataset(), lambda e: {'calc': e.m, 'x': e.x}), lambda d: d.calc() > d.x), lambda d: d.x)", False),
+    ("Select(Select(EventDataset(), lambda e: (e.m, e.jets)), lambda t: Select(t[1], lambda j: j.pt + t[0]()))", False),
 ]
 
 
